@@ -1,7 +1,9 @@
-(* Extraction of the C10 model: ExtrOcamlBasic + ExtrOcamlString only; nat/Z/Q stay inductive. *)
+(* Extraction of the C10 model: ExtrOcamlBasic + ExtrOcamlString only; nat/Z/Q stay inductive.
+   [eq_entity] is extracted WITH its parameter [neq] (the comparison of doubles): the OCaml glue instantiates it by
+   a transcription of utilities.cpp: areNearlyEqual on the doubles themselves (see ocaml/equals/driver.ml). *)
 From Coq Require Import Extraction ExtrOcamlBasic ExtrOcamlString ZArith QArith.
 From LC Require Import EqualsDefs.
 (* glue: the double m * 2^e as a rational *)
 Definition q_of_me (m e : Z) : Q :=
   if (0 <=? e)%Z then inject_Z (m * 2 ^ e) else Qmake m (Z.to_pos (2 ^ (- e))).
-Extraction "equals_model.ml" q_of_me equals_now equals_pinned equals_varcount equals_ideal.
+Extraction "equals_model.ml" q_of_me eq_entity flags_now flags_repo_pinned flags_fixed equals_ideal.
